@@ -18,6 +18,12 @@ CLAIMED = {
  'C04': ('bounded-exhaustive token-class sequences + proptest-generated soups and operator expressions; invariant oracle over the parse tree (links, single reachability, in-order = source order, token accounting) and the build metadata',
          'On every input of the C03 corpus (all sequences of up to 4/5 token classes x 3 separators, token soups) and on generated operator expressions that parse and build accept: parent/child links agree, no node is shared or on a cycle, the in-order walk is in strictly increasing source order, every significant token is carried by exactly one reachable node, non-redundant separators are kept, and every reachable value/operator node owns an instruction in the metadata.',
          'Redundant separators and structural nodes exempt from the metadata clause are defined in the check (model/treecheck.rs) and stated in the evidence; judged only when both parse and build accept.', 'DESIGN.md §3 C04'),
+ 'C05': ('bounded-exhaustive token-class sequences + proptest-generated programs, each built fresh and behind a decoy program on both data implementations; invariant oracle over the instruction stream read back through the data trait',
+         'All inputs of the C03/C04 corpus that the pipeline accepts (all sequences of up to 4/5 token classes x 3 separators, operator triples, soups, random deeper expressions), each built 4 times (2 data implementations x fresh/after a decoy program); every Put/Resolve operand, jump operand, Expression value and jump-table entry must name something that exists inside the ranges this build created, every body must be preceded by a terminator, the stream must end in one, and metadata must be one valid record per instruction.',
+         'Body entries vs join points are derived from the instructions themselves (targets of conditional/logical jumps, Expression values, root); cyclic parse results are left to C03/C04.', 'DESIGN.md §3 C05'),
+ 'C06': ('abstract interpretation of operand depth over all paths of every accepted program + per-step dynamic effect checking with a shadow call stack on both data implementations; reapply loops at several iteration counts',
+         'For every accepted program of the corpus (bare `;;` excluded): static analysis assigns one operand depth per instruction over all paths (never negative, 1 at EndExpression, bodies entered at 0); the program is then stepped on SimpleGarnishData and BasicGarnishData and after every instruction the change in pending operands must equal that instruction abstract effect, EndExpression must see exactly one pending operand in its frame, and at the end operand stack, input-value stack and frames are back at their initial depths; 8 reapply-loop programs x 6 iteration counts must run in depth independent of the count.',
+         'Abstract effects per instruction are DESIGN.md Appendix B; runs that stop with a non-underflow runtime error give no verdict; five recorded constructs (empty program, empty group, misplaced side effect, else chain without default, reapply under an operator) are keyed and excluded as known findings.', 'DESIGN.md §3 C06'),
  'C09': ('bounded-exhaustive enumeration + proptest-generated operand tapes against an i128 / IEEE-754 reference',
          'Every ordered pair of the 187-value boundary lattice x 12 binary operators and lattice+float pool x 5 unary operators exhaustively, a 62x62 float/mixed matrix, plus millions of random i32/f64 pairs; each compared on the GarnishNumber methods and on the executed instruction for both data implementations with a wide-integer/IEEE reference. Exhaustive on the stated lattice, sampled beyond it.',
          'Trusts the i128/f64 reference in checks/c09.rs and the platform powf; operands are finite.', 'DESIGN.md §3 C09'),
